@@ -3,11 +3,43 @@ from runner import H
 
 INF = ['igzip/igzip_inflate.c']
 
+BITS_BOUND = ('the byte-wise refill loop of inflate_in_load runs at most 8 times (constant 57 of the code and '
+              'read_in_length >= 0): unwound 9 times, the unwinding assertion is proved, so the result is complete')
+
+CK_BOUND = ('exhaustive enumeration of (read_in_length, tmp_in_size) as literal constants in the harness (all pairs admitted '
+            'by CK_PRE); memcpy byte-loop model unwound 9 times with unwinding assertion (every call has n <= 8): complete')
+CK_MEMCPY = 'memcpy modelled as a byte loop in harness/igzip/inflate_cksum.c (CBMC built-in model crashes on symbolic n inside struct inflate_state)'
+
 HARNESSES = [
     H('inflate_in_load', ['C02'], 'igzip/inflate_bits.c', INF, enforce='inflate_in_load', defines=['INF_BITS'],
-      also=['C05', 'C06', 'C15'], timeout=900, expect=['postcondition', 'loop_invariant_step', 'loop_decreases']),
+      also=['C05', 'C06', 'C15'], timeout=600, expect=['postcondition', 'unwind'], unwind=9, bounds=BITS_BOUND),
     H('inflate_in_read_bits_unsafe', ['C02'], 'igzip/inflate_bits.c', INF, enforce='inflate_in_read_bits_unsafe',
       defines=['INF_BITS'], also=['C05', 'C06', 'C15'], timeout=600, expect=['postcondition']),
     H('inflate_in_read_bits', ['C02'], 'igzip/inflate_bits.c', INF, enforce='inflate_in_read_bits',
-      defines=['INF_BITS'], also=['C05', 'C06', 'C15'], timeout=900, expect=['postcondition', 'loop_invariant_step']),
+      defines=['INF_BITS'], also=['C05', 'C06', 'C15'], timeout=600, expect=['postcondition', 'unwind'], unwind=9,
+      bounds=BITS_BOUND, solver='cadical'),
+    H('decode_literal_block', ['C02', 'C06', 'C07'], 'igzip/inflate_lit.c', INF, enforce='decode_literal_block',
+      defines=['INF_LIT'], also=['C05', 'C15'], timeout=900, expect=['postcondition', 'assigns']),
+] + [
+    H('check_%s_checksum_all' % w, ['C11', 'C07'], 'igzip/inflate_cksum.c', INF,
+      defines=['INF_CKSUM', 'INF_CK_MEMCPY', 'INF_CK_PLAIN'], also=['C02', 'C05', 'C06', 'C15'], timeout=1800,
+      functions=['check_%s_checksum' % w], expect=['assertion', 'unwind'], unwind=9, bounds=CK_BOUND,
+      properties=[r'^h_check_', r'^check_%s_checksum\.' % w, r'^fixed_size_read\.', r'^memcpy\.', r'^load_', r'^store_'],
+      trusted=[CK_MEMCPY], replay=('inflate_parts.c', 'check_%s_checksum' % w))
+    for w in ('gzip', 'zlib')
+] + [
+    H('check_%s_checksum_c%d' % (w, k), ['C11'], 'igzip/inflate_cksum.c', INF, enforce='check_%s_checksum' % w,
+      defines=['INF_CKSUM', 'INF_CK_MEMCPY'], also=['C05', 'C15'], timeout=600,
+      expect=['postcondition', 'assigns', 'unwind'], unwind=9, object_bits=8, solver='cadical',
+      bounds='one literal pair (read_in_length, tmp_in_size) per harness: dfcc frame check; the exhaustive statement is check_%s_checksum_all' % w,
+      trusted=[CK_MEMCPY], replay=('inflate_parts.c', 'check_%s_checksum' % w))
+    for w in ('gzip', 'zlib') for k in range(3)
+] + [
+    H('finalize_adler32', ['C11'], 'igzip/inflate_cksum.c', INF, enforce='finalize_adler32',
+      defines=['INF_CKSUM'], also=['C05', 'C15'], timeout=300, expect=['postcondition']),
+    H('inflate_update_checksum', ['C11'], 'igzip/inflate_cksum.c', INF, enforce='update_checksum', entry='h_update_checksum',
+      replace=['crc32_gzip_refl', 'isal_adler32_bam1'], defines=['INF_CKSUM'], also=['C05', 'C15'], timeout=300,
+      expect=['postcondition'],
+      trusted=['crc32_gzip_refl (NASM, dispatched): recorded uninterpreted function (contracts/stubs_inflate.h)',
+               'isal_adler32_bam1 (igzip/igzip.c over the NASM isal_adler32): recorded uninterpreted function, result low half < 65521']),
 ]
